@@ -19,6 +19,7 @@ reg(Spec(
         "WaitForReady's select is modelled as the sequence of arms taken; wall-clock polling is observed, not proved",
     ],
     modelled=["internal/health/health.go (AddReadiness, OnReady, IsReady, GetReadyzStatusMap, readyzHandler, WaitForReady)"],
+    extra_targets=["Model/Health.vo"],
 ))
 
 TRACKER_OVERLAY = {"processors/auditd/sessiontracker/verif_export.go": "harness/overlay/sessiontracker_verif.go"}
